@@ -803,6 +803,31 @@ theorem constructDispatch_errs {f : Bytes} {e : Err} (h : Model.constructDispatc
       | ok u2 => rw [hb] at h; cases h
 
 
+/-! ### Security.sign, Security.udpid -/
+
+/-- **tie.** `Security.sign` as translated = the model's (MD5 of the data followed by the signing key, the key as regenerated
+    from the module). -/
+theorem securitySign_eq (data : Bytes) : Codec.securitySign data = .ok (Model.sign data) := by
+  first | rfl | (unfold Codec.securitySign Model.sign; rfl)
+
+/-- **tie.** `Security.udpid` as translated = the model's: never raises (both halves of a SHA-256 digest have 16 bytes). -/
+theorem securityUdpid_eq (id : Bytes) : Codec.securityUdpid id = .ok (Model.udpid id) := by
+  first
+  | (
+       unfold Codec.securityUdpid Model.udpid Py.strxor
+       have h16 : Py.slice (Crypto.SHA256.sha256 id) (some 16) none = (Crypto.SHA256.sha256 id).drop 16 := by
+         simpa using slice_drop (Crypto.SHA256.sha256 id) 16
+       have t16 : Py.slice (Crypto.SHA256.sha256 id) none (some 16) = (Crypto.SHA256.sha256 id).take 16 := by
+         simpa using slice_take (Crypto.SHA256.sha256 id) 16
+       have hl := Crypto.SHA256.sha256_length id
+       rw [h16, t16]
+       have e : ((Crypto.SHA256.sha256 id).drop 16).length = ((Crypto.SHA256.sha256 id).take 16).length := by
+         simp only [List.length_drop, List.length_take, hl]; decide
+       rw [if_neg (by simp only [ne_eq, Decidable.not_not]; exact e)]
+       rw [py_xorBytes_comm _ _ e]
+       first | done | rfl)
+  | rfl
+
 /-! ### Discover._get_device_version -/
 
 /-- **tie.** `Discover._get_device_version` as translated (the XML parser's verdict is an input) = the model's, for every datagram. -/
